@@ -26,6 +26,8 @@ func (w *walker) expr(st *state, e ast.Expr, write bool) {
 		}
 		if w.an.pkgVars[o] {
 			w.access(st, "var "+o.Name(), write, nil, e.Pos(), true)
+		} else if v, ok := o.(*types.Var); ok && v.Parent() == pkg.Scope() && isSyncObj(v.Type()) {
+			w.syncUse("var "+o.Name(), "sync object")
 		}
 		if st.fresh[o] && w.noEsc == 0 {
 			w.escaped[o] = true // used as a value: may be published from here on
@@ -50,6 +52,12 @@ func (w *walker) expr(st *state, e ast.Expr, write bool) {
 	case *ast.UnaryExpr:
 		// &X.f: the address escapes, anything may be done through it
 		w.expr(st, e.X, e.Op == token.AND && !isCompositeLit(e.X))
+		if e.Op == token.ARROW {
+			// <-x.ch on a channel field that is only ever closed: everything from here on is after the close
+			if key, name, ok := chanField(e.X); ok && !st.dead {
+				st.held[lockItem{Key: key, Mu: "<-" + name}] = true
+			}
+		}
 	case *ast.BinaryExpr:
 		w.expr(st, e.X, false)
 		w.expr(st, e.Y, false)
@@ -68,6 +76,27 @@ func (w *walker) expr(st *state, e ast.Expr, write bool) {
 	}
 }
 
+// chanField: e is X.ch with ch a channel-typed field of a tracked struct -> (key of X, "T.ch")
+func chanField(e ast.Expr) (string, string, bool) {
+	se, ok := unparen(e).(*ast.SelectorExpr)
+	if !ok {
+		return "", "", false
+	}
+	sel := info.Selections[se]
+	if sel == nil || sel.Kind() != types.FieldVal || len(sel.Index()) != 1 {
+		return "", "", false
+	}
+	if _, isChan := sel.Type().Underlying().(*types.Chan); !isChan {
+		return "", "", false
+	}
+	tn, ok := trackedName(sel.Recv())
+	if !ok {
+		return "", "", false
+	}
+	k, _ := exprKey(se.X)
+	return k, tn + "." + se.Sel.Name, true
+}
+
 func isCompositeLit(e ast.Expr) bool { _, ok := e.(*ast.CompositeLit); return ok }
 
 func (w *walker) selector(st *state, e *ast.SelectorExpr, write bool) {
@@ -79,15 +108,7 @@ func (w *walker) selector(st *state, e *ast.SelectorExpr, write bool) {
 		return
 	}
 	if sel.Kind() == types.FieldVal {
-		recvT := sel.Recv()
-		st0, _ := deref(recvT).Underlying().(*types.Struct)
-		idx := sel.Index()
-		if tn, ok := trackedName(recvT); ok && st0 != nil && len(idx) > 0 {
-			f := st0.Field(idx[0])
-			if !isSyncObj(f.Type()) {
-				w.access(st, tn+"."+f.Name(), write && len(idx) == 1, e.X, e.Sel.Pos(), globalType[tn])
-			}
-		}
+		w.fieldPath(st, e, sel, sel.Index(), write)
 		// base: a fresh local used as X in X.f does not escape
 		if id, ok := unparen(e.X).(*ast.Ident); ok {
 			if o := info.ObjectOf(id); o != nil {
@@ -100,8 +121,50 @@ func (w *walker) selector(st *state, e *ast.SelectorExpr, write bool) {
 		w.expr(st, e.X, write && !isPointer(info.TypeOf(e.X)))
 		return
 	}
+	// method value / method call receiver; a promoted method reads the embedded fields on the way
+	if idx := sel.Index(); len(idx) > 1 {
+		w.fieldPath(st, e, sel, idx[:len(idx)-1], false)
+	}
 	// method value / method call receiver
 	w.expr(st, e.X, false)
+}
+
+// fieldPath records the accesses of X.f where f is reached through the (possibly implicit, embedded) field path idx
+func (w *walker) fieldPath(st *state, e *ast.SelectorExpr, sel *types.Selection, idx []int, write bool) {
+	cur := sel.Recv()
+	baseKey, _ := exprKey(e.X)
+	var fields []*types.Var
+	var owners []types.Type
+	for _, i := range idx {
+		stt, _ := deref(cur).Underlying().(*types.Struct)
+		if stt == nil || i >= stt.NumFields() {
+			break
+		}
+		owners = append(owners, cur)
+		fields = append(fields, stt.Field(i))
+		cur = stt.Field(i).Type()
+	}
+	for h, f := range fields {
+		tn, ok := trackedName(owners[h])
+		if !ok {
+			baseKey += "." + f.Name()
+			continue
+		}
+		wr := write
+		for g := h; g < len(fields)-1 && wr; g++ {
+			if isPointer(fields[g].Type()) {
+				wr = false // the write lands in another object
+			}
+		}
+		if isSyncObj(f.Type()) {
+			w.syncUse(tn+"."+f.Name(), "atomic/sync field")
+		} else if h == 0 {
+			w.access(st, tn+"."+f.Name(), wr, e.X, e.Sel.Pos(), globalType[tn])
+		} else {
+			w.accessKey(st, tn+"."+f.Name(), wr, baseKey, false, e.Sel.Pos(), globalType[tn])
+		}
+		baseKey += "." + f.Name()
+	}
 }
 
 func (w *walker) composite(st *state, e *ast.CompositeLit) {
@@ -193,6 +256,23 @@ func (w *walker) call(st *state, c *ast.CallExpr) {
 	if id, ok := c.Fun.(*ast.Ident); ok {
 		if _, isB := info.ObjectOf(id).(*types.Builtin); isB {
 			switch id.Name {
+			case "close":
+				w.exprs(st, c.Args, false)
+				if len(c.Args) == 1 {
+					if key, name, ok := chanField(c.Args[0]); ok && !st.dead {
+						it := lockItem{Key: key, Mu: "!" + name}
+						if w.record {
+							if !st.held[it] && !w.inDefer {
+								w.an.foreignClose[name] = posStr(c.Pos())
+							}
+							w.an.closed[name]++
+						}
+						if !w.inDefer {
+							delete(st.held, it) // given: nothing after this point is "before the signal"
+						}
+					}
+				}
+				return
 			case "delete", "clear":
 				if len(c.Args) > 0 {
 					w.expr(st, c.Args[0], true)
@@ -247,7 +327,7 @@ func (w *walker) call(st *state, c *ast.CallExpr) {
 			asyncKind = "cb" // handed to our own code: unknown, treated as a possible goroutine body
 		}
 	}
-	std := fn != nil && fn.Pkg() != nil && isStdPath(fn.Pkg().Path())
+	std := fn != nil && fn.Pkg() != nil && isStdPath(fn.Pkg().Path()) && fn.Pkg().Path() != "sync" && fn.Pkg().Path() != "sync/atomic" // sync.Map.Store & co. publish
 	if std {
 		w.noEsc++ // a standard-library callee does not publish its arguments to other goroutines (assumption)
 		defer func() { w.noEsc-- }()
